@@ -12,9 +12,9 @@ import vlib
 
 def scenarios(quick, seed):
     out = []
-    n = 160 if quick else 1600
+    n = 320 if quick else 3200
     for j in range(n):
-        pol = ["free", "free", "pct", "random"][j % 4]
+        pol = ["free", "pct", "pct", "random"][j % 4]
         churn = [0, 300, 900, 0][j % 4] if pol == "free" else [0, 40][j % 2]
         out.append({"clients": 2 + j % 3, "ops": (30 + 10 * (j % 4)) if pol == "free" else 8 + j % 5, "keys": 2 + j % 6, "collide": (j // 2) % 2,
                     "churn": churn, "initsize": [0, 1, 200, 5000][(j // 3) % 4], "rangers": (j // 2) % 2, "policy": pol, "resizes": (2 if j % 8 < 4 else 0) if pol == "free" else 1 + j % 3,
